@@ -817,6 +817,34 @@ fn big_pair_ops(ops: &mut Vec<String>, seed: u64) {
     }
 }
 
+/// scale: a binary chunk far beyond every buffer size in the code (4 KiB, 64 KiB), with the start of
+/// the next response (nothing / one byte / a complete response) arriving in the same read as its end,
+/// then the end of the stream
+fn huge_binary_ops(ops: &mut Vec<String>, seed: u64) {
+    for size in [150_000usize + (seed as usize % 5) * 1000, 290_000 + (seed as usize % 3) * 1000] {
+        let payload: Vec<u8> = (0..size).map(|i| (i * 7 + 3) as u8).collect();
+        for follower in [&b""[..], b"v", b"volume: 1\nOK\n", b"binary: 0\n"] {
+            let mut stream = format!("size: {size}\nbinary: {size}\n").into_bytes();
+            stream.extend_from_slice(&payload);
+            stream.extend_from_slice(b"\nOK\n");
+            stream.extend_from_slice(follower);
+            let n = stream.len();
+            let h = hex(&stream);
+            let mut pieces = Vec::new();
+            let mut left = n;
+            while left > 65536 {
+                pieces.push("65536".to_string());
+                left -= 65536;
+            }
+            pieces.push(left.to_string());
+            for fl in ["a", "s"] {
+                ops.push(format!("proto.recv {fl} {h} {n} eof 1"));
+                ops.push(format!("proto.recv {fl} {h} {} eof 1", pieces.join(",")));
+            }
+        }
+    }
+}
+
 pub fn gen(cfg: &Cfg) -> Vec<String> {
     let mut r = Rng::new(cfg.seed);
     let mut ops = Vec::new();
@@ -958,6 +986,7 @@ pub fn gen(cfg: &Cfg) -> Vec<String> {
             }
         }
         "C10" => {
+            huge_binary_ops(&mut ops, cfg.seed);
             let n = cfg.n.unwrap_or(if cfg.thorough { 700 } else { 120 });
             for i in 0..n {
                 let k = r.range(1, 3);
